@@ -1,4 +1,5 @@
 import OcVerif.Proofs.Coroutine
+import OcVerif.Model.Migrate
 /-!
 # C09 — delay and cancel requests affect only the coroutine that made them
 -/
@@ -40,5 +41,70 @@ theorem C09_syscall_yield_does_not_leak :
     let b : Co := { prog := [.susp 7] }
     let r1 := resume { now := 1000 } a 1
     (resume r1.1 b 2).2.2 = .state (.suspend 7 0) := by decide
+
+/-! ## coroutines that migrate between threads -/
+section Migrate
+open Oc.Migrate
+
+/-- every thread's "current" stack holds exactly the coroutine that thread is executing -/
+def InvMg (s : S) : Prop := s.fresh = true → ∀ t, s.stack t = (s.running t).toList
+
+theorem fresh_step (s : S) (a : Act) : (step s a).fresh = s.fresh := by
+  cases a <;> (simp only [step]; split <;> rfl)
+
+theorem invMg_step (s : S) (a : Act) (h : InvMg s) : InvMg (step s a) := by
+  intro hf
+  have hfs : s.fresh = true := by rw [← fresh_step s a]; exact hf
+  have h0 := h hfs
+  cases a with
+  | resume t c =>
+    simp only [step]
+    split
+    · exact h0
+    · rename_i hr
+      intro u
+      simp only [hfs, if_true, upd]
+      by_cases hu : u = t
+      · subst hu; simp [h0 u, hr]
+      · simp [hu, h0 u]
+  | suspend t =>
+    simp only [step]
+    split
+    · exact h0
+    · rename_i c hr
+      intro u
+      simp only [upd]
+      by_cases hu : u = t
+      · subst hu; simp [h0 u, hr]
+      · simp [hu, h0 u]
+
+/-- **The current pointers follow the coroutine.** For every sequence of suspensions and resumptions
+on any threads — a coroutine may be resumed by another thread than the one it was suspended on —
+each thread's stack of current entries holds exactly the coroutine that thread is executing: a request
+(delay, cancel) or a lookup made through it concerns that coroutine and no other. -/
+theorem C09_current_follows_migration (as : List Act) (t : Nat) :
+    (run {} as).stack t = ((run {} as).running t).toList := by
+  have gen : ∀ (l : List Act) (s : S), InvMg s → InvMg (l.foldl step s) := by
+    intro l
+    induction l with
+    | nil => intro s h; exact h
+    | cons a rest ih => intro s h; exact ih _ (invMg_step s a h)
+  have hfr : ∀ (l : List Act) (s : S), (l.foldl step s).fresh = s.fresh := by
+    intro l
+    induction l with
+    | nil => intro s; rfl
+    | cons a rest ih => intro s; simp only [List.foldl_cons]; rw [ih, fresh_step]
+  have hinv := gen as {} (fun _ _ => rfl)
+  exact hinv (by rw [hfr]) t
+
+/-- With the address computed before the switch (the inlined accessors before the repair): coroutine 7
+starts on thread 0, suspends, is resumed by thread 1 — its entry lands on thread 0's stack, thread 1
+executes it without any current entry, and whoever runs next on thread 0 finds 7's entry. -/
+theorem C09_old_cached_address_counterexample :
+    (run { fresh := false } [.resume 0 7, .suspend 0, .resume 1 7]).stack 0 = [7] ∧
+    (run { fresh := false } [.resume 0 7, .suspend 0, .resume 1 7]).stack 1 = [] ∧
+    (run { fresh := false } [.resume 0 7, .suspend 0, .resume 1 7]).running 1 = some 7 := by decide
+
+end Migrate
 
 end Oc.Props.C09
